@@ -7,6 +7,12 @@ type Prop struct {
 	Value    Value
 	Get, Set *Obj // nil = undefined
 	W, E, C  bool
+	// uW/uE/uC: the attribute was absent from the descriptor that CREATED the
+	// property and has not been defined since. Irrelevant for ES5.1 (absent
+	// means false); the implementation under test remembers "unset" and leaves
+	// such fields out of the descriptors Object.freeze/seal and [[Put]] build,
+	// which is observable only together with DevLooseIndex (see fullDescDev).
+	uW, uE, uC bool
 }
 
 // Desc is a Property Descriptor (8.10): every field may be absent.
@@ -45,6 +51,8 @@ type Obj struct {
 type Realm struct {
 	ObjectProto, FunctionProto, ArrayProto, StringProto, NumberProto, BooleanProto *Obj
 	ObjectProtoToString                                                            *Obj
+	// Global stands for the global object (only reachable through DevUndefinedThis).
+	Global *Obj
 
 	Steps, MaxSteps int
 
@@ -227,7 +235,14 @@ func (r *Realm) Put(o *Obj, p string, v Value, throw bool) {
 	}
 	own := o.props[p]
 	if own != nil && !own.Accessor {
-		r.DefineOwnProperty(o, p, Desc{HasValue: true, Value: v}, throw)
+		valueDesc := Desc{HasValue: true, Value: v}
+		if r.Dev&DevLooseIndex != 0 {
+			// the implementation under test passes the complete current descriptor;
+			// only observable together with the loose index recognition
+			valueDesc = r.fullDescDev(own)
+			valueDesc.Value = v
+		}
+		r.DefineOwnProperty(o, p, valueDesc, throw)
 		return
 	}
 	d := o.GetProperty(p)
@@ -330,6 +345,7 @@ func (r *Realm) ordinaryDefineOwnProperty(o *Obj, p string, d Desc, throw bool) 
 		if d.HasC {
 			np.C = d.C
 		}
+		np.uW, np.uE, np.uC = !d.HasW && !np.Accessor, !d.HasE, !d.HasC
 		o.setRaw(p, np)
 		return true
 	}
@@ -402,6 +418,10 @@ func (r *Realm) ordinaryDefineOwnProperty(o *Obj, p string, d Desc, throw bool) 
 		}
 	}
 	// 12
+	cur.uE, cur.uC = false, false
+	if d.isData() {
+		cur.uW = false
+	}
 	if d.HasValue {
 		cur.Value = d.Value
 	}
@@ -437,13 +457,24 @@ func (r *Realm) arrayDefineOwnProperty(a *Obj, p string, d Desc, throw bool) boo
 		if !d.HasValue { // a
 			return r.ordinaryDefineOwnProperty(a, "length", d, throw)
 		}
-		newLenDesc := d                    // b
-		newLen := r.ToUint32(d.Value)      // c
-		if newLen != r.ToNumber(d.Value) { // d
-			throwRange("invalid array length")
+		newLenDesc := d // b
+		var newLen float64
+		if r.Dev&DevLengthOneConversion != 0 {
+			n := r.ToNumber(d.Value)
+			if newLen = Uint32OfNumber(n); newLen != n {
+				throwRange("invalid array length")
+			}
+		} else {
+			newLen = r.ToUint32(d.Value)       // c
+			if newLen != r.ToNumber(d.Value) { // d
+				throwRange("invalid array length")
+			}
 		}
 		newLenDesc.Value = Num(newLen) // e
-		if newLen >= oldLen {          // f
+		if newLen == oldLen && !oldLenDesc.W && r.Dev&DevLengthSameValue != 0 {
+			return reject("length not writable")
+		}
+		if newLen >= oldLen { // f
 			return r.ordinaryDefineOwnProperty(a, "length", newLenDesc, throw)
 		}
 		if !oldLenDesc.W { // g
@@ -473,6 +504,23 @@ func (r *Realm) arrayDefineOwnProperty(a *Obj, p string, d Desc, throw bool) boo
 		}
 		return true // n
 	}
+	if r.Dev&DevLooseIndex != 0 {
+		if index, ok := looseIndex(p); ok {
+			canon := NumberToString(index)
+			if index >= oldLen && !oldLenDesc.W {
+				return reject("length not writable")
+			}
+			if !r.ordinaryDefineOwnProperty(a, canon, d, false) {
+				return reject("element define failed")
+			}
+			if index >= oldLen {
+				r.ordinaryDefineOwnProperty(a, "length", Desc{HasValue: true, Value: Num(index + 1)}, false)
+				return true
+			}
+			return r.ordinaryDefineOwnProperty(a, p, d, throw)
+		}
+		return r.ordinaryDefineOwnProperty(a, p, d, throw)
+	}
 	if idx, ok := ArrayIndex(p); ok { // 4
 		index := float64(idx)
 		if index >= oldLen && !oldLenDesc.W { // b
@@ -489,26 +537,82 @@ func (r *Realm) arrayDefineOwnProperty(a *Obj, p string, d Desc, throw bool) boo
 	return r.ordinaryDefineOwnProperty(a, p, d, throw) // 5
 }
 
-// Freeze is 15.2.3.9, Seal 15.2.3.8, PreventExtensions 15.2.3.10.
+// fullDesc is FromPropertyDescriptor∘ToPropertyDescriptor of an existing
+// property: every field present.
+func fullDesc(pr *Prop) Desc {
+	d := Desc{HasE: true, E: pr.E, HasC: true, C: pr.C}
+	if pr.Accessor {
+		d.HasGet, d.Get, d.HasSet, d.Set = true, pr.Get, true, pr.Set
+	} else {
+		d.HasValue, d.Value, d.HasW, d.W = true, pr.Value, true, pr.W
+	}
+	return d
+}
+
+// fullDescDev is fullDesc as the implementation under test builds it when a
+// deviation model is active: attributes still "unset" are left out.
+func (r *Realm) fullDescDev(pr *Prop) Desc {
+	d := fullDesc(pr)
+	if r.Dev != 0 {
+		if pr.uW && !pr.Accessor {
+			d.HasW = false
+		}
+		if pr.uE {
+			d.HasE = false
+		}
+		if pr.uC {
+			d.HasC = false
+		}
+	}
+	return d
+}
+
+// Freeze is 15.2.3.9.
 func (r *Realm) Freeze(o *Obj) {
 	for _, k := range o.OwnKeys() {
 		pr := o.props[k]
-		d := Desc{HasC: true, C: false}
-		if !pr.Accessor && pr.W {
-			d.HasW, d.W = true, false
+		if pr == nil {
+			continue
 		}
+		d := r.fullDescDev(pr) // 2.a
+		update := false
+		if !pr.Accessor && pr.W {
+			d.HasW, d.W = true, false // 2.b
+			update = true
+		}
+		if pr.C {
+			update = true
+		}
+		d.HasC, d.C = true, false // 2.c
+		if !update && r.Dev != 0 {
+			// The implementation under test skips the (per spec idempotent)
+			// [[DefineOwnProperty]] call when nothing changes; that is observable
+			// only in combination with one of its recorded deviations.
+			continue
+		}
+		r.DefineOwnProperty(o, k, d, true) // 2.d
+	}
+	o.Ext = false // 3
+}
+
+// Seal is 15.2.3.8.
+func (r *Realm) Seal(o *Obj) {
+	for _, k := range o.OwnKeys() {
+		pr := o.props[k]
+		if pr == nil {
+			continue
+		}
+		d := r.fullDescDev(pr)
+		if !pr.C && r.Dev != 0 {
+			continue // see Freeze
+		}
+		d.HasC, d.C = true, false
 		r.DefineOwnProperty(o, k, d, true)
 	}
 	o.Ext = false
 }
 
-func (r *Realm) Seal(o *Obj) {
-	for _, k := range o.OwnKeys() {
-		r.DefineOwnProperty(o, k, Desc{HasC: true, C: false}, true)
-	}
-	o.Ext = false
-}
-
+// PreventExtensions is 15.2.3.10.
 func (r *Realm) PreventExtensions(o *Obj) { o.Ext = false }
 
 // Call invokes a callable value.
@@ -581,5 +685,7 @@ func NewRealm(maxSteps int) *Realm {
 		return Str(r.ToString(prim("Number")(r, this, a)))
 	})
 	r.installArrayProto(def)
+	r.Global = r.NewObject("environment", r.ObjectProto)
+	r.Global.Name = "G"
 	return r
 }
